@@ -77,6 +77,7 @@ type Outcome struct {
 	Err     string
 	Panics  []string
 	Elapsed time.Duration
+	Retries int
 }
 
 func (w *World) entry(id int) (Entry, int, bool) {
@@ -202,7 +203,7 @@ func (s Scenario) Run(from *Snapshot, emitAll bool, actions []Action) Outcome {
 	// the trace up to here is what the monitors look at; shutdown may flush more
 	out.Trace, out.Snaps = e.Trace()
 	e.Stop()
-	out.Err, out.Panics = e.Err, e.Panics()
+	out.Err, out.Panics, out.Retries = e.Err, e.Panics(), e.Retries
 	return out
 }
 
@@ -288,12 +289,40 @@ func CheckC03(w *World, trace []Event, from Snapshot) []Violation {
 		}
 		return initialOf(w, seq)
 	}
+	// which difference answers have been handed out so far (answers are served in request order)
+	carried := map[int]bool{}
+	servedIdx := map[string]int{}
+	nextServed := func(seq string) {
+		n := 0
+		for _, sv := range w.Served {
+			if sv.Seq != seq {
+				continue
+			}
+			if n == servedIdx[seq] {
+				for _, id := range sv.Messages {
+					carried[id] = true
+				}
+				for _, id := range sv.Others {
+					carried[id] = true
+				}
+				break
+			}
+			n++
+		}
+		servedIdx[seq]++
+	}
 	check := func(i int, seq string, val int) {
 		for _, en := range w.Log {
 			if en.Seq() != seq || en.Pos > val || en.Pos <= base(seq) || dispatched[en.ID] || tooLong[seq] || en.IsMarker() {
 				continue
 			}
+			if en.Count == 0 && !carried[en.ID] {
+				continue // never pushed successfully and never carried: nothing the client could do
+			}
 			key := "c03-store-ahead"
+			if en.Count == 0 {
+				key = "c03-difference-carried-zero-count-update-not-dispatched"
+			}
 			if cl := classify(w, en); cl != "" {
 				key = "c03-" + cl
 			}
@@ -311,6 +340,12 @@ func CheckC03(w *World, trace []Event, from Snapshot) []Violation {
 	_ = lastAPI
 	for i, ev := range trace {
 		switch ev.Kind {
+		case "A":
+			if ev.Key == "diff" {
+				nextServed("pts")
+			} else if strings.HasPrefix(ev.Key, "chdiff") {
+				nextServed("c" + ev.Key[6:])
+			}
 		case "D":
 			for _, id := range ev.IDs {
 				dispatched[id] = true
@@ -364,6 +399,13 @@ func CheckC02(w *World, trace []Event, pushedPlain map[int]bool, alreadyDelivere
 		if dispatched[en.ID] || en.IsMarker() {
 			continue
 		}
+		if en.Kind != KPlain && en.Count == 0 {
+			if carriedAnywhere(w, en.ID) && !tooLong[en.Seq()] && !seen["zero"] {
+				seen["zero"] = true
+				out = append(out, Violation{Key: "c02-difference-carried-zero-count-update-not-dispatched", Detail: fmt.Sprintf("entry %s (id %d) was carried by a difference answer but never dispatched; trace: %s", en, en.ID, FormatTrace(trace))})
+			}
+			continue
+		}
 		if en.Kind == KPlain {
 			if pushedPlain[en.ID] {
 				out = append(out, Violation{Key: "c02-lost-plain-update", Detail: fmt.Sprintf("pushed update %s never dispatched", en)})
@@ -399,6 +441,23 @@ func CheckC02(w *World, trace []Event, pushedPlain map[int]bool, alreadyDelivere
 	return out
 }
 
+// carriedAnywhere: some difference answer carried the entry.
+func carriedAnywhere(w *World, id int) bool {
+	for _, sv := range w.Served {
+		for _, x := range sv.Messages {
+			if x == id {
+				return true
+			}
+		}
+		for _, x := range sv.Others {
+			if x == id {
+				return true
+			}
+		}
+	}
+	return false
+}
+
 // CheckDuplicates: an entry with a position dispatched twice (C01 at the manager level).
 func CheckDuplicates(w *World, trace []Event) []Violation {
 	n := map[int]int{}
@@ -411,7 +470,7 @@ func CheckDuplicates(w *World, trace []Event) []Violation {
 	}
 	var ids []int
 	for id, k := range n {
-		if en, _, ok := w.entry(id); ok && k > 1 && en.Kind != KPlain {
+		if en, _, ok := w.entry(id); ok && k > 1 && en.Kind != KPlain && en.Count > 0 {
 			ids = append(ids, id)
 		}
 	}
@@ -458,7 +517,7 @@ func CheckOrder(w *World, trace []Event, from Snapshot) []Violation {
 					continue
 				}
 				for _, f := range w.Log {
-					if f.Seq() == en.Seq() && f.Pos <= en.Pos-en.Count && f.Pos > base(f) && !dispatched[f.ID] && !f.IsMarker() {
+					if f.Seq() == en.Seq() && f.Pos <= en.Pos-en.Count && f.Pos > base(f) && !dispatched[f.ID] && !f.Soft() {
 						key := "c01-manager-skipped-position"
 						if cl := classify(w, f); cl != "" {
 							key = "c01-manager-" + cl
